@@ -4,7 +4,7 @@
 From Coq Require Import List NArith ZArith Bool.
 Import ListNotations.
 Require Import FlexV.Regex FlexV.SpecAuto FlexV.Lockstep FlexV.Pat FlexV.Tables FlexV.Scan
-               FlexV.C01Proofs FlexV.Tokenize FlexV.NfaSim FlexV.NfaProofs FlexV.NfaTotal.
+               FlexV.C01Proofs FlexV.Tokenize FlexV.NfaSim FlexV.NfaProofs FlexV.NfaTotal FlexV.C02Proofs.
 
 (** The executable matcher used as oracle decides the denotation. *)
 Theorem C01_matcher_decides : forall r w, matchb r w = true <-> Matches r w.
@@ -99,6 +99,18 @@ Theorem C01_printed_dfa_selects_the_documented_token : forall p sc bol d m,
     r <> 0%N /\ (1 <= k)%nat /\ Selected (spec_start p sc bol) w r k.
 Proof. exact printed_dfa_token. Qed.
 Print Assumptions C01_printed_dfa_selects_the_documented_token.
+
+(** Subset construction end to end (nfa.c -> dfa.c): when the printed NFA and
+    the printed DFA both pass the lock-step check against the rule set, the match
+    loop selects the same rule and length over either of them on EVERY input. *)
+Theorem C01_dfa_construction_preserves_the_nfa_token : forall p sc bol a d m1 m2,
+  check_view (nview a) (alphabet (p_csize p)) m1 (spec_start p sc bol) (v_start (nview a) (Z.of_N sc - 1) bol) = true ->
+  check_view (dview d) (alphabet (p_csize p)) m2 (spec_start p sc bol) (v_start (dview d) (Z.of_N sc - 1) bol) = true ->
+  forall w, Forall (fun b => (b < p_csize p)%N) w -> w <> [] ->
+    scan (nview a) (v_start (nview a) (Z.of_N sc - 1) bol) w 0 (0%N, 0%nat) =
+    scan (dview d) (v_start (dview d) (Z.of_N sc - 1) bol) w 0 (0%N, 0%nat).
+Proof. exact (fun p sc bol a d m1 m2 => FlexV.C02Proofs.repr_independent p sc bol (nview a) m1 (dview d) m2). Qed.
+Print Assumptions C01_dfa_construction_preserves_the_nfa_token.
 
 (** Non-vacuity: a concrete program, tables-free instance of the premises. *)
 Example C01_example_selected :
